@@ -359,8 +359,9 @@ def check_mermaid(ctx, prop, lib, nodes, idmap, names, par, ch, s, stop, hidden,
         options = custom["options"]
         kw.update(indent=indent, graph=graph, name=gname, options=options)
         if custom.get("namefunc"):
-            namefn = lambda x: "id%d" % x  # noqa: E731
-            kw["nodenamefunc"] = lambda n: "id%d" % lab(n)
+            # the identifier depends on mutable node state (its name), as "nodenamefunc=lambda n: slug(n.name)" does
+            namefn = lambda x: "id%d_%d" % (x, name_sum(cur.get("names", names)[x]))  # noqa: E731
+            kw["nodenamefunc"] = lambda n: "id%d_%d" % (lab(n), name_sum(n.name))
         if custom.get("nattr"):
             nodefn = lambda x: "(%s #%d)" % (cur.get("names", names)[x], x)  # noqa: E731
 
@@ -538,6 +539,13 @@ def hostile_names(rng, n, collide):
     else:
         pool = HOSTILE_NAMES
     return [rng.choice(pool) for _ in range(n)]
+
+
+def name_sum(name):
+    """Small deterministic checksum of a (possibly non-string, possibly hostile) name."""
+    import zlib
+
+    return zlib.crc32(str(name).encode("utf-8", "surrogatepass")) % 9973
 
 
 _VALUE_CLS = []
